@@ -88,6 +88,10 @@ def grammar_case(fggs, rng, tier, seed, index, viols, obs):
             if rng.random() < 0.5:
                 ps['default'] = rng.choice([0.5, 2.0, 1.0])
                 spec['weights'][t] = A.densify(ps)[0]
+    if index % 6 == 4 and spec['rules']:
+        # the same rule twice (with the id scheme that ignores the rule index the two copies are equal graphs): a grammar
+        # may list a rule several times, and each copy counts
+        spec['rules'].insert(rng.randrange(len(spec['rules']) + 1), copy.deepcopy(rng.choice(spec['rules'])))
     unused = not typed and (index // 3) % 4 == 1
     if unused:
         # labels that are declared (and, for the terminal, interpreted) but occur in no rule
@@ -111,7 +115,7 @@ def grammar_case(fggs, rng, tier, seed, index, viols, obs):
     rng.shuffle(order)
     old_default = torch.get_default_dtype()
     torch.set_default_dtype(torch.float64 if default64 else torch.float32)
-    odd_ids = idmode != 'implicit' and (index // 7) % 3 == 0      # '', '0', 'None', ' ' ... are ids like any other
+    odd_ids = idmode != 'implicit' and ((index // 7) % 3 == 0 or index % 6 == 4)      # '', '0', 'None', ' ' ... are ids like any other
     info_ = dict(idmode=idmode, domains=kind, patterned=typed, weight_dtype=str(wdtype), default_dtype='float64' if default64 else 'float32', odd_ids=odd_ids)
 
     def V(sig, msg, **kw):
